@@ -17,6 +17,18 @@ tried = []
 for d in sorted(glob.glob(f"/verif/seeded/{pid}-*")):
     m = json.load(open(d + "/meta.json"))
     tried.append("- " + str(m.get("summary"))[:420].replace("\n", " "))
+FOCUS3 = ("""In this round look in particular at what a checker that always calls the library in one fixed way would never exercise: an ALTERNATIVE but documented form of an argument (a class or callable instead of a name, a scalar instead of an array, a list instead of an ndarray, a dict of dtypes instead of one dtype, keyword vs. positional), a DEFAULT value that is computed from other arguments, a rarely used constructor option or method, the INTERACTION of two features that are each fine alone, a particular dtype / configuration / archive type out of several, a tolerance-based shortcut, a loop or branch that is reached only after many iterations or under tight settings, a value that is not exactly representable in float32, a state reached only after clear() / a restart / a remap / a resize / pickling. """)
+FOCUS4 = ("In this round look in particular at what only shows over TIME or at SCALE: a state that is reached only after a "
+          "particular multi-step history (clear() followed by more work, several restarts, several remaps or resizes in "
+          "a row, an emitter that was inactive for a while, a second pickle round trip), a cache, counter or derived "
+          "quantity that is updated in one code path but not in another path that reaches the same state, an "
+          "off-by-one that needs a size, count or index beyond the small examples (an exact multiple, a boundary "
+          "between two growth steps, the last element, an empty or full container), two methods that should agree "
+          "(batch vs. single, property vs. method, fresh object vs. reset object, dict vs. tuple vs. pandas view) and "
+          "disagree only in a corner, an argument combination in which one option silently overrides another, error "
+          "handling that leaves something half-done, and numerical corner cases (ties, signed zeros, exactly "
+          "representable vs. not, values at the limits of float32).")
+FOCUS = FOCUS4 if (len(sys.argv) > 3 and sys.argv[3] == "4") else FOCUS3
 print(f"""You are testing how well a semantic property of the Python library pyribs (quality-diversity optimization; package `ribs`) is protected against regressions. You have your own scratch git worktree of the repository at {wt} (work ONLY there and in {wt}_out; do not read or touch /repo, /verif or any other directory outside {wt}, {wt}_out and the Python environment). Run Python with `PYTHONPATH={wt} /venv/bin/python` so that your modified copy of `ribs` is imported (check `ribs.__file__`). NEVER use `git stash` (it is shared between worktrees): use `git diff > file`, `git apply`, `git apply -R`, `git checkout -- .`.
 
 THE PROPERTY ({pid}: {p['title']}):
@@ -28,7 +40,7 @@ The code it is anchored in: {', '.join(p['anchors']['files'])}.
 YOUR TASK: produce TWO different, realistic source changes to `ribs/` (each independent of the other, each the kind of mistake a maintainer could plausibly make in a refactoring, optimisation or 'small fix'), such that each change
  (a) BREAKS the property above (a clause of it -- preferably a clause or a part of the quantifier that the ideas listed below did NOT target),
  (b) still imports/compiles, and the existing test suite still passes exactly as before: first, on the UNMODIFIED worktree, run `cd {wt} && PYTHONPATH={wt} /venv/bin/python -m pytest -q -p no:cacheprovider --no-cov tests/ 2>&1 | tail -5` and note the pass/fail counts (84 image-comparison tests under tests/visualize fail in this sandbox even without any change; that is the baseline); with your change applied the set of passing tests must be the same (same counts, no new failures),
- (c) needs something SPECIFIC to manifest. In this round look in particular at what a checker that always calls the library in one fixed way would never exercise: an ALTERNATIVE but documented form of an argument (a class or callable instead of a name, a scalar instead of an array, a list instead of an ndarray, a dict of dtypes instead of one dtype, keyword vs. positional), a DEFAULT value that is computed from other arguments, a rarely used constructor option or method, the INTERACTION of two features that are each fine alone, a particular dtype / configuration / archive type out of several, a tolerance-based shortcut, a loop or branch that is reached only after many iterations or under tight settings, a value that is not exactly representable in float32, a state reached only after clear() / a restart / a remap / a resize / pickling. Subtle beats blatant: prefer changes whose effect appears only on a narrow slice of inputs, configurations or histories, and NOT something that ordinary use or the simplest example would expose at once.
+ (c) needs something SPECIFIC to manifest. {FOCUS} Subtle beats blatant: prefer changes whose effect appears only on a narrow slice of inputs, configurations or histories, and NOT something that ordinary use or the simplest example would expose at once.
 
 These ideas were ALREADY tried by someone else for this property -- do NOT repeat them or close variants; find different mechanisms, different code sites, different clauses of the property:
 {chr(10).join(tried) if tried else '- (none)'}
